@@ -190,6 +190,15 @@ TWINS = [
     ('trexp-V-sign', 'C03', 'base/transforms3d.py', '        V = np.eye(3) * theta + (1.0 - math.cos(theta)) * skw + (theta - math.sin(theta)) * skw @ skw', '        V = np.eye(3) * theta + (1.0 - math.cos(theta)) * skw + (theta + math.sin(theta)) * skw @ skw', 'R16', 'trexp'),
     ('log-drops-twist', 'C03', 'super_pose.py', '            log = [base.trlog(x, twist=twist) for x in self.data]', '            log = [base.trlog(x) for x in self.data]', 'R21', 'SMPose.log'),
     ('trlog-halfturn-diag', 'C03', 'base/transforms3d.py', '            col = R[:, k] + I[:, k]\n            w = col / np.sqrt(2 * (1 + mx))', '            w = np.sqrt((diagonal + 1) / 2)', 'R17', 'trlog'),
+    # ---- R22 / R23 / exp dependence
+    ('udq-point-plain-conj', 'C06', 'DualQuaternion.py', 'vp = left * DualQuaternion.Pure(v) * DualQuaternion(left.real.conj(), -1 * left.dual.conj())', 'vp = left * DualQuaternion.Pure(v) * left.conj()', 'R22', '__mul__'),
+    ('udq-point-wrong-side', 'C06', 'DualQuaternion.py', 'vp = left * DualQuaternion.Pure(v) * DualQuaternion(left.real.conj(), -1 * left.dual.conj())', 'vp = DualQuaternion(left.real.conj(), -1 * left.dual.conj()) * DualQuaternion.Pure(v) * left', 'R22', '__mul__'),
+    ('intersect-lam-normal', 'C19', 'geom3d.py', '            t = np.dot(p - self.pp, self.uw)', '            t = np.dot(p - self.pp, plane.n)', 'R23', 'intersect_plane'),
+    ('intersect-p-sign', 'C19', 'geom3d.py', '            p = (np.cross(self.v, plane.n) - plane.d * self.w) / den', '            p = (np.cross(self.v, plane.n) + plane.d * self.w) / den', 'R23', 'intersect_plane'),
+    ('distance-skew-squared', 'C19', 'geom3d.py', '                l = abs(np.dot(l1.w, l2.v) + np.dot(l2.w, l1.v)) / np.linalg.norm(np.cross(l1.w, l2.w))', '                l = abs(np.dot(l1.w, l2.v) + np.dot(l2.w, l1.v)) / np.linalg.norm(np.cross(l1.w, l2.w))**2', 'R23', 'distance'),
+    ('distance-parallel-vector', 'C19', 'geom3d.py', '            l = np.linalg.norm(np.cross(l1.w, l1.v - l2.v * np.dot(l1.w, l2.w) / np.dot(l2.w, l2.w))) / np.dot(l1.w, l1.w)', '            l = np.cross(l1.w, l1.v - l2.v * np.dot(l1.w, l2.w) / np.dot(l2.w, l2.w)) / np.dot(l1.w, l1.w)', 'R23', 'distance'),
+    ('closest-lam-w', 'C19', 'geom3d.py', '        lam = np.dot(x - self.pp, self.uw)', '        lam = np.dot(x - self.pp, self.w)', 'R23', 'closest'),
+    ('trexp2-so2-theta-only', 'C03', 'base/transforms2d.py', "        # do Rodrigues' formula for rotation\n        return base.rodrigues(w, theta)\n    else:\n        raise ValueError(\" First argument must be SO(2), 1-vector, SE(2) or 3-vector\")", "        if theta is None:\n            return base.rodrigues(w, theta)\n        return rot2(theta)\n    else:\n        raise ValueError(\" First argument must be SO(2), 1-vector, SE(2) or 3-vector\")", 'R17', 'trexp2'),
 ]
 
 
